@@ -153,6 +153,7 @@ class Batch:
         self.samples = []
         self.schedules, self.switches = set(), 0
         self.tsan_runs = []
+        self.cells = set()
         self.faults, self.probes = {}, {}
         self.steps = 0
         self.crashes = []      # (index, out, err, kind)
@@ -200,6 +201,8 @@ class Batch:
                     n_end += 1
                     with self.lock:
                         self.results[idx] = (r["hash"], r["ph"], r["nt"])
+                        for c in r.get("cells", []):
+                            self.cells.add(c)
                         if r.get("tsan"):
                             self.tsan_runs.append(idx)
                         if "sh" in r:
